@@ -542,6 +542,54 @@ static void dump_cfg(cfg_t *cfg, std::string &out, int depth)
 	}
 }
 
+static json tree_cfg(cfg_t *cfg, int depth)
+{
+	json node;
+	node["opts"] = json::array();
+	if (depth > 40)
+		return node;
+	for (unsigned i = 0;; i++) {
+		cfg_opt_t *o = cfg_getnopt(cfg, i);
+		if (!o)
+			break;
+		json j;
+		static const char *tn[] = {"none", "int", "float", "str", "bool", "sec", "func", "ptr", "comment"};
+		j["n"] = to_json_bytes(o->name);
+		j["t"] = tn[o->type <= CFGT_COMMENT ? o->type : 0];
+		j["fl"] = o->flags & (CFGF_MULTI | CFGF_LIST | CFGF_TITLE | CFGF_NODEFAULT | CFGF_NO_TITLE_DUPES | CFGF_KEYSTRVAL | CFGF_NOCASE);
+		j["R"] = (o->flags & CFGF_RESET) != 0;
+		j["M"] = (o->flags & CFGF_MODIFIED) != 0;
+		const char *cm = cfg_opt_getcomment(o);
+		if (cm)
+			j["c"] = to_json_bytes(cm);
+		else
+			j["c"] = nullptr;
+		unsigned n = cfg_opt_size(o);
+		if (o->type == CFGT_SEC) {
+			json secs = json::array();
+			for (unsigned k = 0; k < n; k++) {
+				cfg_t *sec = cfg_opt_getnsec(o, k);
+				json sj;
+				const char *t = sec ? cfg_title(sec) : nullptr;
+				if (t)
+					sj["title"] = to_json_bytes(t);
+				else
+					sj["title"] = nullptr;
+				sj["cfg"] = sec ? tree_cfg(sec, depth + 1) : json(nullptr);
+				secs.push_back(sj);
+			}
+			j["s"] = secs;
+		} else {
+			json vals = json::array();
+			for (unsigned k = 0; k < n; k++)
+				vals.push_back(value_repr(o, k));
+			j["v"] = vals;
+		}
+		node["opts"].push_back(j);
+	}
+	return node;
+}
+
 // ------------------------------------------------------------------ navigation
 
 static cfg_opt_t *find_leaf(cfg_t *cfg, const std::string &name)
@@ -781,8 +829,11 @@ static void run_op(int client, const json &op, OpResult &r)
 		c.flags = op.value("flags", 0);
 		c.cfg = do_init(client, c.schema, c.flags, op);
 		r.ret = c.cfg ? 1 : 0;
-		if (c.cfg && E->opts.dump_each && !E->res.died)
+		if (c.cfg && E->opts.dump_each && !E->res.died) {
 			dump_cfg(c.cfg, r.dump, 0);
+			if (E->opts.want_tree)
+				r.tree = tree_cfg(c.cfg, 0);
+		}
 		return;
 	}
 
@@ -983,8 +1034,11 @@ static void run_op(int client, const json &op, OpResult &r)
 		return;
 	}
 
-	if (want_dump && !E->res.died && c.cfg)
+	if (want_dump && !E->res.died && c.cfg) {
 		dump_cfg(c.cfg, r.dump, 0);
+		if (E->opts.want_tree)
+			r.tree = tree_cfg(c.cfg, 0);
+	}
 }
 
 RunResult execute(const json &plan, const ExecOpts &opts)
